@@ -899,8 +899,8 @@ pub fn confirm(id: &str, v: &Viol) -> Confirm {
         }
         #[cfg(feature = "conc")]
         Some("e2") => {
-            let a = crate::e2::replay_case(&v.case);
-            let b = crate::e2::replay_case(&v.case);
+            let a = crate::e2::replay_case(&v.case, id == "C19");
+            let b = crate::e2::replay_case(&v.case, id == "C19");
             match (a, b) {
                 (Some(Some(_)), Some(Some(_))) => Confirm::Reproduced,
                 _ => Confirm::NotReproduced,
@@ -957,7 +957,7 @@ pub fn replay(id: &str, path: &str) -> i32 {
             }
         },
         #[cfg(feature = "conc")]
-        Some("e2") => match crate::e2::replay_case(&v.case) {
+        Some("e2") => match crate::e2::replay_case(&v.case, id == "C19") {
             Some(Some(msg)) => {
                 println!("VIOLATION property={id} replay={path}");
                 println!("  {msg}");
